@@ -405,6 +405,7 @@ func (u *Unit) evalBuiltin(name string, call *ast.CallExpr, st *State) []Val {
 			return []Val{{T: fmt.Sprintf("(mk_%s %s %s false)", srt, arr, n.T), S: srt, GT: t}}
 		case *types.Map:
 			r := u.newRef(st, "map")
+			u.mapTypeFact(st, r, t)
 			ks := u.reg.sortOf(ut.Key())
 			mdKey := "MD:" + ks
 			hd := u.heapTerm(st, mdKey, u.sortOfHeapKey(mdKey))
@@ -747,6 +748,7 @@ func (u *Unit) callByContract(call *ast.CallExpr, f *types.Func, con *Contract, 
 			u.havocHeapFramed(st, pre, k, con, rv)
 		}
 		u.frameAlloc = ""
+		u.checkCalleeFrame(pre, f, con, rv, ms, call)
 		// a callee that initialises immutable fields of an object passed to it (assigns p.*) may only be
 		// handed an object under construction
 		if con != nil && con.HasAssigns {
@@ -912,7 +914,7 @@ func isGhostVocabulary(f *types.Func) bool {
 		return false
 	}
 	switch f.Name() {
-	case "implies", "iff", "forall", "exists", "forall2", "forall3", "exists2", "old", "has", "keys", "dynIs", "unboxed", "seqEq", "setEq", "same", "typeOK", "unchangedExcept", "ite", "allocated", "isFresh", "sortedStrings", "permOf":
+	case "implies", "iff", "forall", "exists", "forall2", "forall3", "exists2", "old", "has", "keys", "dynIs", "unboxed", "seqEq", "setEq", "same", "typeOK", "unchangedExcept", "ite", "allocated", "isFresh", "sortedStrings", "permOf", "fst", "snd":
 		pos := f.Pos()
 		_ = pos
 		return true
@@ -1025,4 +1027,42 @@ func (u *Unit) checkImmutableArgs(st, pre *State, con *Contract, rv *roleVals, m
 		}
 		u.oblige(pre, fmt.Sprintf("immutable-arg#%d", u.frameSite(call, "immarg:"+item)), "frame", or(alts...), []string{"C03"}, nil, "object whose immutable fields the callee initialises ("+item+") is under construction", call)
 	}
+}
+
+// checkCalleeFrame: when the function under verification declares a frame, everything a callee may
+// write (its own frame when it declares one, otherwise its whole syntactic write set) must lie inside it.
+func (u *Unit) checkCalleeFrame(pre *State, f *types.Func, con *Contract, rv *roleVals, ms map[string]bool, call *ast.CallExpr) {
+	if u.suppressAssigns || u.con == nil || !u.con.HasAssigns || len(u.inlineStack) > 0 || u.entry == nil || call == nil {
+		return
+	}
+	var conj []string
+	for _, k := range sortedKeys(ms) {
+		if strings.HasPrefix(k, "!") || strings.HasPrefix(k, "C:") {
+			continue
+		}
+		srtK := u.sortOfHeapKey(k)
+		if srtK == "" {
+			continue
+		}
+		if strings.HasPrefix(k, "G:") {
+			conj = append(conj, "false")
+			continue
+		}
+		u.reg.counter++
+		r := fmt.Sprintf("q_r!%d", u.reg.counter)
+		calleeAllowed := "true"
+		if con != nil && con.HasAssigns {
+			calleeAllowed = u.frameAllows(pre, con, rv, pre, k, r)
+		} else if u.prog.CS.Immutable[k] {
+			// immutable fields are only written on objects under construction; a callee without a frame
+			// cannot be handed one, so it writes them on its own fresh objects only
+			calleeAllowed = "(> " + r + " " + pre.alloc + ")"
+		}
+		callerAllowed := u.frameAllows(pre, u.con, u.entryBindings(nil), u.entry, k, r)
+		conj = append(conj, fmt.Sprintf("(forall ((%s Int)) (=> (and (> %s 0) %s) %s))", r, r, calleeAllowed, callerAllowed))
+	}
+	if len(conj) == 0 {
+		return
+	}
+	u.oblige(pre, fmt.Sprintf("%s#frame", u.site(call, "call#"+funcKeyOfObj(f))), "frame", and(conj...), u.con.Props, nil, "everything "+funcKeyOfObj(f)+" may write lies inside the assigns clause", call)
 }
